@@ -67,10 +67,10 @@ def bump_water(rng, res, target_idx, resseq=900):
     return None
 
 
-def gen_case(rng, force=None):
+def gen_case(rng, force=None, kind=None, offslot=False):
     """-> (pdb text, options, features)"""
     feats = {}
-    kind = rng.choice(["bump", "bump", "bump", "plain", "ss", "missing", "gap", "partial-h"])
+    kind = kind or rng.choice(["bump", "bump", "bump", "plain", "ss", "missing", "gap", "partial-h"])
     if kind == "ss":
         text, opts, f = c13.gen_case(rng)
         opts = [o for o in opts if o not in ("--nodebump", "--noopt", "--whitespace", "--keep-chain")]
@@ -163,7 +163,33 @@ def gen_case(rng, force=None):
             if threes:
                 g = rng.choice(threes)
                 drop -= set(g)
-                drop.add(rng.choice(g))
+                gone = rng.choice(g)
+                drop.add(gone)
+                if offslot or rng.random() < 0.6:
+                    # hydrogens that do not come from pdb2pqr are not exactly on the ideal positions: turn one of
+                    # the two remaining members of the group about the bond it hangs on (parent - its heavy neighbour)
+                    keep = [i for i in g if i != gone]
+                    hi = rng.choice(keep)
+
+                    def xyz(l):
+                        return [float(l[30:38]), float(l[38:46]), float(l[46:54])]
+
+                    same = [l for l in lines if l.startswith(("ATOM", "HETATM")) and l[21:27] == lines[hi][21:27] and not l[12:16].strip().startswith("H")]
+                    hp = xyz(lines[hi])
+                    parent = min(same, key=lambda l: math.dist(xyz(l), hp), default=None)
+                    nxt = [l for l in same if l is not parent and parent is not None and math.dist(xyz(l), xyz(parent)) < 1.9]
+                    if parent is not None and math.dist(xyz(parent), hp) < 1.3 and len(nxt) == 1:
+                        b, n0 = xyz(parent), xyz(nxt[0])
+                        ax = [b[k] - n0[k] for k in range(3)]
+                        nn = math.sqrt(sum(c * c for c in ax))
+                        ax = [c / nn for c in ax]
+                        v = [hp[k] - b[k] for k in range(3)]
+                        t = math.radians(rng.choice([-1, 1]) * rng.choice([8.0, 12.0, 20.0, 35.0, 60.0, 90.0] if offslot else [3.0, 6.0, 8.0, 12.0, 20.0, 35.0, 60.0, 90.0]))
+                        cr = [ax[1] * v[2] - ax[2] * v[1], ax[2] * v[0] - ax[0] * v[2], ax[0] * v[1] - ax[1] * v[0]]
+                        dt = sum(ax[k] * v[k] for k in range(3))
+                        new = [b[k] + v[k] * math.cos(t) + cr[k] * math.sin(t) + ax[k] * dt * (1 - math.cos(t)) for k in range(3)]
+                        lines[hi] = lines[hi][:30] + f"{new[0]:8.3f}{new[1]:8.3f}{new[2]:8.3f}" + lines[hi][54:]
+                        feats["kind"] += "+off-slot-hydrogen"
             text = "\n".join(l for i, l in enumerate(lines) if i not in drop) + "\n"
         else:
             feats["kind"] = "plain"
